@@ -15,6 +15,9 @@ NOT_APPLICABLE = {
 }
 
 
+READY = set(open(os.path.join(ROOT, "tools", "ready.txt")).read().split())
+
+
 def main():
     ids = [json.loads(l)["id"] for l in open(os.path.join(ROOT, "properties.jsonl"))]
     checks = []
@@ -24,7 +27,7 @@ def main():
         if pid in NOT_APPLICABLE:
             na.append({"property_id": pid, "reason": NOT_APPLICABLE[pid]})
             continue
-        if not os.path.exists(path):
+        if not os.path.exists(path) or pid not in READY:
             na.append({"property_id": pid, "reason": "monitor designed (DESIGN.md section 3) but not built yet in this round; not claimed"})
             continue
         mod = importlib.import_module("vv.props." + pid.lower())
